@@ -54,7 +54,20 @@ def tensor_for(shape, wd, seed):
     x = g.standard_normal(shape)
     if len(shape) >= 1:
         x = x * np.exp(g.uniform(-2, 2, size=(shape[0],) + (1,) * (len(shape) - 1)))
-    return torch.from_numpy(x).to(wd)
+    t = torch.from_numpy(x).to(wd)
+    # two configurations in five get a source that is not contiguous (same values): a transposed view, a strided slice, a
+    # channels_last weight - an accepted configuration must be honoured whatever the memory layout
+    lay = seed % 5
+    if lay == 1 and t.ndim >= 2:
+        t = t.transpose(0, -1).contiguous().transpose(0, -1)
+    elif lay == 3 and t.ndim >= 1 and t.numel():
+        if t.ndim == 4:
+            t = t.contiguous(memory_format=torch.channels_last)
+        else:
+            big = torch.zeros(tuple(t.shape[:-1]) + (2 * t.shape[-1],), dtype=wd)
+            big[..., ::2] = t
+            t = big[..., ::2]
+    return t
 
 
 def outcome(ctx, fn, sig, desc):
